@@ -26,6 +26,8 @@ pub enum Ev {
     Closed { conn: u64 },
     Commit { node: NodeId, block: Rc<consensus::Block> },
     StoreWrite { node: NodeId, key: Vec<u8>, len: usize },
+    /// A digest handed by a mempool to its consensus (component rigs).
+    Digest { node: NodeId, digest: Vec<u8> },
     Panic(PanicRec),
     Note(String),
 }
@@ -131,6 +133,10 @@ pub fn last_panic_since(before: usize) -> Option<PanicRec> {
             None
         }
     })
+}
+
+pub fn panics_since(before: usize) -> Vec<PanicRec> {
+    ALL_PANICS.with(|p| p.borrow().iter().skip(before).cloned().collect())
 }
 
 pub fn panics() -> Vec<PanicRec> {
